@@ -408,6 +408,7 @@ CHECKS["C19"] = {
     "units": [
         rapid("history", "^TestHistory$", 96, 900, qs=12, ts=16, qtimeout=1500, ttimeout=5000),
         rapid("deep", "^TestDeep$", 12, 200, qs=12, ts=16, qtimeout=1500, ttimeout=5000),
+        rapid("second_name", "^TestMintMetUnderSecondName$", 16, 400, qs=4, ts=8),
         {"name": "crash", "kind": "rapid", "run": "^TestCrash$", "quick": {"checks": 8, "shards": 8, "timeout": 1500}, "thorough": {"checks": 16, "shards": 16, "timeout": 3000}},
     ],
 }
@@ -424,6 +425,7 @@ CHECKS["C18"] = {
     "level_note": _WALLET_NOTE + "Fee formula from harness/ref (NUT-02).",
     "assumptions": ["one mint per case; contents up to 36 proofs"],
     "units": [
+        plain("regress", "^TestRegress"),
         rapid("send", "^TestSend$", 640, 30000, qs=8, ts=16, ttimeout=5000),
     ],
 }
@@ -448,3 +450,21 @@ CHECKS["C20"] = {
 
 NOT_APPLICABLE = {}
 HOOK_COMMITS = ["eca2adf", "812334f"]
+
+# round 2: what was added to the generators and oracles (appended to the rule texts that go into MANIFEST / evidence)
+_ROUND2 = {
+    "C01": "Round 2: melts of a race may be new attempts on the quote of the failed pre-melt (other inputs); the quote poll / state check that finds the failure out races them (pairs and triples in the enumeration); a retry counts as accepting only if that request issued a pay call itself. Behind the CLN adapter the node imitation lists earlier failed attempts of a payment in front of the current one.",
+    "C02": "Round 2: unit backend_lnd as described; schedule units share the retry-on-failed-quote generator of C01.",
+    "C05": "Unit bulk: the same scripts with every proof-state check being part of a state check of 640 unrelated Ys (in front).",
+    "C06": "Round 2 semantic mutations: inactive_keyset_output (an output at any position names a retired keyset), own_invoice_node_lookup_fails (a valid melt of the mint's own invoice whose one Lightning call fails once).",
+    "C09": "Round 2: one history in three runs on a mint with configured limits (max balance / mint max / melt max).",
+    "C10": "Round 2: the read-back through restore puts never-signed outputs in front of, among and behind the signed ones; wallet histories contain op join (a new wallet, or a newly added mint, in the middle of a history).",
+    "C12": "Round 2: condition = kind, lock value, signers, threshold, locktime and refund keys (modes same_other_locktime / same_other_refund); canonical SIG_ALL cases include expired locks (refund key signs inputs and outputs with the helpers; no refund key: nothing is signed) and must be accepted; after the locktime the outputs need a refund-key signature and nothing else.",
+    "C13": "Round 2: helper domain includes locks without listed keys (preimage only, also under SIG_ALL); two SIG_ALL inputs with different hashes must be refused; output signatures are required of an HTLC only when n_sigs is set.",
+    "C14": "Round 2: decoder input family decorated_short (white space, URI schemes, quotes, BOM, NUL around short strings) and an exhaustive enumeration over \"cashu:AB \\n\"; round trips after another token was built from the same slice without DLEQ.",
+    "C16": "Round 2: melt quotes for invoices at the top of the 64-bit msat range (multiples of 100 msat; the generator checks that the invoice says what was asked for).",
+    "C18": "Round 2: sender_restored (the wallet directory was made by wallet.Restore), amount class at the exact bound balance - fee(all proofs); without fees included that bound is the success precondition.",
+    "C20": "Round 2: op lockx (genuine proofs with well-formed and malformed NUT-10 locks presented without a usable witness: 200 or 400 {detail, code >= 10000}), swap variant dup_inputs_other_spelling (11007).",
+}
+for _k, _v in _ROUND2.items():
+    CHECKS[_k]["rule"] = CHECKS[_k]["rule"] + " " + _v
